@@ -587,7 +587,30 @@ WPATH = dict(
     assumptions=["only updates/deletes of requested keys are mirrored", "independent root computation by harness/bridge/wmpt.go"],
 )
 
-FAMILIES = {"C01": MPT, "C02": MPT, "C14": MPT, "C06": SC, "C07": SC, "C08": C08, "C03": ROUNDS, "C04": ROUNDS, "C05": ROUNDS, "C17": SYNC, "C16": C16, "C09": WMPT, "C11": WMPT, "C13": WMPT, "C10": PROOF, "C12": WPATH}
+# ----------------------------------------------------------------------------- family: codec (C15)
+
+CODEC = dict(
+    name="codec", component="codec", trace_module="CodecTrace", trace_cfg="CodecTrace.cfg", level="exploration",
+    design={"quick": [("Codec", "Codec_MC.cfg")], "thorough": [("Codec", "Codec_MC.cfg")]},
+    gen={"quick": [dict(module="Codec", cfg="Codec_gen1.cfg", workers=4)],
+         "thorough": [dict(module="Codec", cfg="Codec_gen2.cfg", workers=12, timeout=3000)]},
+    exec_args=lambda tier, seed: (["-n", 60000] if tier == "quick" else ["-n", 2000000]),
+    flags={"C15": {"panic-mpt", "panic-wnode", "panic-wpath", "panic-wproof", "timeout-mpt", "timeout-wnode", "timeout-wpath",
+                   "timeout-wproof", "reencode-mpt", "reencode-wnode", "reencode-wpath", "reencode-wproof"}},
+    distinct=lambda s: s.get("distinct_outcome_classes", 0),
+    rule="inputs = (a) every mutation plan of Codec.tla (quick: all single mutations, thorough: all pairs; 15 mutation families incl. "
+         "truncation, separator removal/duplication, type byte, CBOR length-field inflation, splicing, bit flips, byte-string/array "
+         "length changes, null elements, nested-record changes) applied to every matching seed of a corpus harvested from real tries "
+         "(every state-trie node kind, weighted-trie records, path exports, proofs); (b) seeded random and randomly mutated inputs; "
+         "every input goes to all four decoders under recover and a 2 s deadline, accepted results are re-encoded; "
+         "distinct_nontrivial = distinct (seed kind, mutation kinds, per-decoder outcome) classes",
+    summary_keys=["seeds", "panics", "timeouts", "accepted", "rejected", "go_histories"],
+    ops_of=lambda ev: dict(event=ev[0]),
+    assumptions=["memory safety over ALL byte strings is outside what a state-machine specification decides: the claim is exploration "
+                 "of a structured, TLC-enumerated mutation space plus random inputs (DESIGN.md section 6)"],
+)
+
+FAMILIES = {"C01": MPT, "C02": MPT, "C14": MPT, "C06": SC, "C07": SC, "C08": C08, "C03": ROUNDS, "C04": ROUNDS, "C05": ROUNDS, "C17": SYNC, "C16": C16, "C09": WMPT, "C11": WMPT, "C13": WMPT, "C10": PROOF, "C12": WPATH, "C15": CODEC}
 PROPS = dict(FAMILIES)
 
 
@@ -599,7 +622,7 @@ def run_property(prop, tier, seed):
     if "custom" in fam:
         return fam["custom"](prop, tier, seed)
     res, d = run_family(fam, prop, tier, seed)
-    rc = judge(prop, fam, res, tier, seed, t0)
+    rc = judge(prop, fam, res, tier, seed, t0, level=fam.get("level", "model_checking"))
     if rc == 0:
         shutil.rmtree(d, ignore_errors=True)
     log("%s %s: exit %d (%.1fs)" % (prop, tier, rc, time.time() - t0))
